@@ -233,8 +233,31 @@ fn attr_text(a: &str, args: &str) -> String {
 
 fn render_attr(it: &Value) -> Vec<String> {
     let one = attr_text(it["a"].as_str().unwrap_or("allow"), it["args"].as_str().unwrap_or("none"));
-    let twice = it["twice"] == true;
-    let on = it["on"].as_str().unwrap_or("struct");
+    place_attr(&one, it["twice"] == true, it["on"].as_str().unwrap_or("struct"))
+}
+
+/// MC_AttrArgs: an explicit argument list, bare words where possible (or string literals throughout)
+fn render_attrargs(it: &Value) -> Vec<String> {
+    let quoted = it["quoted"] == true;
+    let args: Vec<String> = strs(&it["args"]).iter().map(|a| if quoted || !a.chars().all(|c| c.is_ascii_alphanumeric()) { format!("\"{a}\"") } else { a.clone() }).collect();
+    let dir = it["dir"].as_str().unwrap_or("allow");
+    let one = if it["parens"] == true { format!("{dir}({})", args.join(", ")) } else { dir.to_owned() };
+    place_attr(&one, false, it["on"].as_str().unwrap_or("struct"))
+}
+
+/// the attributes the compiled AST shows on the element the attribute was written on
+fn attrs_on(state: &slicec::compilation_state::CompilationState, on: &str) -> Option<Value> {
+    use slicec::grammar::*;
+    let ast = &state.ast;
+    Some(match on {
+        "struct" => crate::ast_project::attrs(ast.find_element::<Struct>("M::S").ok()?.attributes()),
+        "field" => crate::ast_project::attrs(ast.find_element::<Field>("M::S::f").ok()?.attributes()),
+        "enumerator" => crate::ast_project::attrs(ast.find_element::<Enumerator>("M::E::A").ok()?.attributes()),
+        _ => crate::ast_project::attrs(ast.find_element::<Operation>("M::I::op").ok()?.attributes()),
+    })
+}
+
+fn place_attr(one: &str, twice: bool, on: &str) -> Vec<String> {
     let a = if on == "file" {
         if twice { format!("[[{one}]] [[{one}]]") } else { format!("[[{one}]]") }
     } else if twice {
@@ -361,6 +384,7 @@ pub fn render(case: &Value) -> Option<Vec<String>> {
         "stream" => render_stream(it),
         "names" => render_names(it),
         "attrs" => render_attr(it),
+        "attrargs" => render_attrargs(it),
         "inherit" => render_inherit(it).0,
         // MC_Syntax_inject: a generated program with one injected violation, printed token by token
         "inject" => case["files"].as_array().cloned().unwrap_or_default().iter().map(|f| crate::fam_syntax::render_file(&f["out"])).collect(),
@@ -381,7 +405,15 @@ impl Family for Rules {
         let state = slicec::compile_from_strings(&refs, None);
         let nrows: Vec<usize> = texts.iter().map(|t| t.lines().count() + 1).collect();
         let is_inherit = case["fam"] == "inherit";
-        let structural = if is_inherit && !state.diagnostics.has_errors() { check_inherit(case, &state) } else { None };
+        let mut structural = if is_inherit && !state.diagnostics.has_errors() { check_inherit(case, &state) } else { None };
+        if case["fam"] == "attrargs" && !state.diagnostics.has_errors() {
+            // C02: the element carries exactly the attribute that was written, in the form its argument list means
+            let want = json!([{"d": case["item"]["dir"], "args": case["form"]}]);
+            let got = attrs_on(&state, case["item"]["on"].as_str().unwrap_or(""));
+            if got.as_ref() != Some(&want) {
+                structural = Some(mismatch("the attribute the AST shows on the element (directive and the form its written argument list means)", want, json!(got)));
+            }
+        }
         let diags = state.into_diagnostics(&Default::default());
         let errors: Vec<&slicec::diagnostics::Diagnostic> = diags.iter().filter(|d| d.level() == DiagnosticLevel::Error).collect();
         let mut codes: Vec<String> = errors.iter().map(|d| d.code().to_owned()).collect();
